@@ -1,5 +1,6 @@
 import numpy as np
 import copy as cpy
+import re
 
 from strengths.typechecking import *
 from strengths import constants
@@ -635,6 +636,8 @@ def parse_units(s) :
     for b in blocks :
         if b[2] == "" :
             b[2] = "1"
+        if re.fullmatch("-?[0-9]+", b[2]) is None :
+            raise ValueError("invalid units exponent \""+b[2]+"\".")
         b[2] = int(b[2])
         if b[0] == "/" :
             b[2] = -b[2]
@@ -1304,6 +1307,8 @@ def parse_unitvalue(s="") :
         value = 0
         units = parse_units("")
     else :
+        if len(tok) > 2 :
+            raise ValueError("units must not contain whitespaces.")
         value = float(tok[0])
         us = ""
         for i in range(1, len(tok)):
